@@ -50,6 +50,7 @@ OtherTests == { E("struct", "coerce", {"coerce"}, {}, FALSE), E("struct", "inval
                 E("string", "ptr.not_nil", {"not_nil"}, {}, TRUE), E("number", "ptr.not_nil", {"not_nil"}, {}, TRUE), E("struct", "ptr.not_nil", {"not_nil"}, {}, TRUE),
                 E("custom", "custom", {"", "custom"}, {}, TRUE),
                 \* a front-end failure below a top-level pointer is completed like any other issue
+                E("struct", "null_json", {"invalid_json"}, {}, FALSE), E("struct", "ptr.null_json", {"invalid_json"}, {}, FALSE),
                 E("struct", "ptr.invalid_json", {"invalid_json"}, {}, FALSE), E("struct", "ptr.invalid_form", {"invalid_form"}, {}, FALSE),
                 \* every public entry point (Parse and Validate of every schema kind) resolves messages the same way
                 E("number", "validate.gt", {"gt"}, {"gt"}, TRUE), E("number", "struct.validate.gt", {"gt"}, {"gt"}, TRUE),
@@ -60,14 +61,15 @@ Entries == StrTests \cup NumTests \cup BoolTests \cup TimeTests \cup SliceTests 
 
 TestCfgs == {"none", "message", "messagefunc"}
 ExecCfgs == {"none", "fmt"}
-Globals  == {"default", "i18n:es", "i18n:none", "i18n:xx"}
+\* "i18n:es-after-custom-key": i18n was first installed with a custom language key, then installed again plainly
+Globals  == {"default", "i18n:es", "i18n:none", "i18n:xx", "i18n:es-after-custom-key"}
 DefaultLang == "en"
 Shipped == {"en", "es"}
 
 Rows == {r \in [entry : Entries, tcfg : TestCfgs, ecfg : ExecCfgs, glob : Globals] : r.tcfg = "none" \/ r.entry.topt}
 
 \* ---- message precedence: most specific first ----------------------------------------------------------------
-GlobalLang(glob) == CASE glob = "default" -> "en" [] glob = "i18n:es" -> "es" [] OTHER -> DefaultLang
+GlobalLang(glob) == CASE glob = "default" -> "en" [] glob \in {"i18n:es", "i18n:es-after-custom-key"} -> "es" [] OTHER -> DefaultLang
 Source(r) == IF r.tcfg # "none" THEN "test:" \o r.tcfg
              ELSE IF r.ecfg = "fmt" THEN "exec"
              ELSE IF r.glob = "default" THEN "global:default" ELSE "global:" \o GlobalLang(r.glob)
